@@ -14,6 +14,13 @@ extern Scenario const scen_restart, scen_durable, scen_rollback, scen_fscrash, s
 
 // the checkpoint file name is part of the configuration space: names without extension, with several
 // dots, ending in a dot, ending in ".tmp", in a sub directory
+void add_extreme_draws(Rng& r, Plan& p, double prob);   // scen_serial.cpp
+
+static bool same_bits_ld(ld a, ld b)
+{
+    return (a != a && b != b) || (a == b && std::signbit(a) == std::signbit(b));
+}
+
 static std::string chk_path(Plan const& p)
 {
     static char const* const names[] = {"/hepsim/run.chkpt", "/hepsim/run.chkpt", "/hepsim/run.chkpt", "/hepsim/chkpt",
@@ -37,7 +44,9 @@ static Plan gen_restart(Rng& r, int tier, std::string const& focus)
     o.allow_zero_calls = false;
     if (focus == "C03" && r.chance(0.6)) o.eng_class = 3;
     if (focus == "C08") o.integ = MULTI;
+    o.allow_tiny = true;   // values whose squares are subnormal: they have to survive the text as well
     gen_world(r, p, o);
+    if (focus == "C08" && r.chance(0.15)) p.fmag = tiny_exponent(r, p.nt) / 2 - static_cast<int>(r.below(6));
     while (p.calls.size() < 2) p.calls.push_back(2 + r.below(60));
     if (r.chance(0.15) && tier)
     {
@@ -307,6 +316,27 @@ static void exec_restart(Plan const& p, Report& rep)
             rep.fail("C03", "resumed-differs", roundtrip_class(q).empty() ? key : roundtrip_class(q), fmt(
                 "interruption mask %llx of %llu boundaries: final checkpoint differs from the uninterrupted run at byte %zu",
                 (unsigned long long) mask, (unsigned long long) nb, i));
+            if (q.integ == MULTI)
+            {
+                // the channel weights an iteration used are a function of the data of the iteration before
+                // it, whether that data went through text in between or not
+                ChkptView const a = ref.w->view(), b = run.w->view();
+                for (std::size_t k = 0; k < a.results.size() && k < b.results.size(); ++k)
+                {
+                    bool same = a.results[k].weights.size() == b.results[k].weights.size();
+                    for (std::size_t j = 0; same && j != a.results[k].weights.size(); ++j)
+                    {
+                        same = same_bits_ld(a.results[k].weights[j], b.results[k].weights[j]);
+                    }
+                    if (!same)
+                    {
+                        rep.fail("C08", "resumed-weights-differ", fmt("multi_channel %s", nt_name(q.nt)), fmt(
+                            "interruption mask %llx: iteration %zu of the resumed run used other channel weights than the uninterrupted run",
+                            (unsigned long long) mask, k));
+                        break;
+                    }
+                }
+            }
             return;
         }
 
@@ -381,6 +411,8 @@ static Plan gen_durable(Rng& r, int tier, std::string const&)
         // push fields to the corners: large / tiny magnitudes
         int const emax = (p.nt == NT_F) ? 30 : 300;
         p.fmag = static_cast<int>(r.below(2 * emax)) - emax;
+        // sums of squares in the subnormal range of the numeric type
+        if (r.chance(0.2)) p.fmag = tiny_exponent(r, p.nt) / 2 - static_cast<int>(r.below(8));
         p.jexp = 0;
         if (p.fk == F_LADDER) p.fk = F_SIGN;
     }
@@ -438,6 +470,12 @@ static Plan gen_rollback(Rng& r, int tier, std::string const&)
         E_MINSTD, E_KNUTH_B};
     p.eng = r.pick(eng);
     p.cbk = 1;
+    if (r.chance(0.2))
+    {
+        // the history runs under MPI (the MPI integrators thread the state through their loops themselves)
+        p.P = 2 + r.below(3);
+        p.rorder = 0;
+    }
     u64 const L = p.calls.size();
     u64 len = 0;
     u64 const nops = 2 + r.below(tier ? 11 : 7);
@@ -1208,6 +1246,12 @@ static void exec_modes(Plan const& p, Report& rep)
             rep.fail("C20", "exception", key, fmt("mode %d: %s", mode, o.what.c_str()));
             return;
         }
+        if (o.hang && mode != 0)
+        {
+            // the job never ends in this mode (ranks that took different decisions wait for each other)
+            rep.fail("C20", "hang", key, fmt("mode %d: %s", mode, o.hang_why.c_str()));
+            return;
+        }
         if (o.killed || o.hang) return;
 
         text[mode] = s.w->text();
@@ -1376,6 +1420,9 @@ static Plan gen_mpi(Rng& r, int tier, std::string const& focus)
         p.rorder = 0;
         p.target = 0;
     }
+    // canonical numbers of exactly 0 and the largest value below 1 somewhere in the stream: whatever a
+    // rank does with such a number, it costs what every other number costs
+    add_extreme_draws(r, p, 0.4);
     if (r.chance((focus == "C06") ? 0.008 : tier ? 0.0015 : 0.0008))
     {
         // volume run: more calls than a float can count (2^24), in the thorough tier rarely more than
